@@ -156,9 +156,16 @@ def _ask(assertions: Sequence[z3.ExprRef], ctx: z3.Context, timeout_ms: int, see
 
 
 def escalate(assertions: Sequence[z3.ExprRef], timeout_ms: int,
-             want_model: bool = True) -> Tuple[str, Optional[z3.ModelRef]]:
+             want_model: bool = True, light: bool = False
+             ) -> Tuple[str, Optional[z3.ModelRef]]:
     """Called after the ordinary attempt said `unknown`.  Returns ('unsat', None),
-    ('sat', model in the callers' context) or ('unknown', None)."""
+    ('sat', model in the callers' context) or ('unknown', None).
+
+    Budgets: where a re-asked query is decided at all it is decided fast (measured on C12
+    thorough: nearly all within about a second of the deciding attempt, the slowest in 7 s,
+    against queries that stay undecided however long they run), so the ladder prefers several short attempts under different seeds to one long
+    one, and ends with one attempt under the caller's full budget.  `light` (path-feasibility
+    queries, where `unknown` is soundly read as "maybe feasible") stops after two short ones."""
     assertions = list(assertions)
     if not assertions:
         return "unknown", None
@@ -166,6 +173,8 @@ def escalate(assertions: Sequence[z3.ExprRef], timeout_ms: int,
     t0 = time.time()
     STATS["escalated"] += 1
     how = "still_unknown"
+    base = max(timeout_ms, 5000)
+    short = min(base, 4000)
     try:
         # 1. real relaxation, fresh context
         if _has_int(assertions):
@@ -177,17 +186,17 @@ def escalate(assertions: Sequence[z3.ExprRef], timeout_ms: int,
             except _NotRelaxable:
                 relaxed = None
             if relaxed is not None:
-                r, _ = _ask(relaxed, ctx, max(timeout_ms, 10000), 0)
+                r, _ = _ask(relaxed, ctx, short, 0)
                 if r == "unsat":
                     how = "relaxation_unsat"
                     return "unsat", None
-        # 2. the query itself, fresh contexts, other seeds, growing budget
-        base = max(timeout_ms, 5000)
-        for mult, seed in ((1, 0), (2, 17), (4, 4242)):
+        # 2. the query itself, fresh contexts, other seeds
+        plan = ((short, 0), (short, 17)) if light else \
+            ((short, 0), (short, 17), (short, 4242), (base, 99991))
+        for budget, seed in plan:
             ctx = z3.Context()
             moved = [a.translate(ctx) for a in assertions]
-            # 10 s -> 10, 20, 40 s; budgets of 40 s and more are repeated, not multiplied
-            r, s = _ask(moved, ctx, min(base * mult, max(base, 40000)), seed)
+            r, s = _ask(moved, ctx, budget, seed)
             if r == "unsat":
                 how = "fresh_context"
                 return "unsat", None
